@@ -744,20 +744,20 @@ class BranchInstruction(Instruction):
             self.__trueBlock = newValue
 
         if self.__falseBlock and self.__falseBlock.Reference == ref:
-            self.__falseBlock = ref
+            self.__falseBlock = newValue
 
         if self.__predicate and self.__predicate.Reference == ref:
-            self.__predicate = ref
+            self.__predicate = newValue
 
     @property
     def Uses(self):
-        yield self.__trueBlock
+        yield self.__trueBlock.Reference
 
         if self.__falseBlock:
-            yield self.__falseBlock
+            yield self.__falseBlock.Reference
 
         if self.__predicate:
-            yield self.__predicate
+            yield self.__predicate.Reference
 
     def SetTrueBlock(self, trueBlock: BasicBlock):
         self.__trueBlock = trueBlock
